@@ -9,10 +9,50 @@
 From stdpp Require Import gmap strings.
 From RecordUpdate Require Import RecordSet.
 From Coq Require Import NArith.
-From Verif Require Import Store.Model FSM.Model FSM.Sorting FSM.NonInterference FSM.IndexOrigin FSM.Proofs.
+From Verif Require Import Store.Model FSM.Model FSM.Sorting FSM.NonInterference FSM.IndexOrigin FSM.Proofs FSM.Machine FSM.MachineProofs.
 Import RecordSetNotations.
 Local Open Scope N_scope.
 
+(* ---------- the property over ONE machine whose steps take the replica's environment ---------- *)
+(* [mrun es log s] (coq/FSM/Machine.v): entry i of the log is applied under environment es[i], which
+   fixes the order in which every Go map the handler ranges over is visited and the server's wall clock.
+   The machine runs the core store commands, the manual-virtual-IP table, the usage rows written at
+   commit, the mesh-topology rows of a proxy registration, the tagged addresses of terminating-gateway
+   instances, service metadata validation and the JWT-provider check of service-intentions.  [mrepl]
+   erases what is server-local (the lock-delay key set and the expiry times computed from the clock).
+   [MInv]: no address is a manual virtual IP of two services (holds initially, kept by every step).
+
+   Two replicas -- ANY two environment lists -- that start from states agreeing on the replicated part
+   end every log with the same replicated part and return the same result for every entry. *)
+Theorem C01_machine_replicas_agree : forall log es1 es2 s1 s2,
+  MInv s1 -> mrepl s1 = mrepl s2 ->
+  mrepl (mrun es1 log s1).1 = mrepl (mrun es2 log s2).1 /\ (mrun es1 log s1).2 = (mrun es2 log s2).2.
+Proof. exact machine_replicas_agree. Qed.
+
+Theorem C01_machine_invariant_kept : forall e idx c s, MInv s -> MInv (mapply e idx c s).1.
+Proof. exact mapply_MInv. Qed.
+Example C01_machine_invariant_initially : MInv mst0.
+Proof. exact MInv_mst0. Qed.
+
+(* A log with every kind of step, run by three replicas (identity order, reversed order, and a mix of
+   rotated / reversed / identity orders; clocks 100, 7777, 31): same results -- among them the manual-VIP
+   list ["db"; "web"], the named metadata pair and the two missing-provider lines -- while the expiry
+   of the lock delay on key "a" is 115 on one replica and 7792 on another. *)
+Example C01_machine_example :
+  (mrun ex_es_a ex_mlog mst0).2 =
+  [RCore CNil; RCore (CStr "s1"); RCore (CBool true); RVip None; RVip None; RVip None;
+   RVip (Some (VRes true [])); RVip (Some (VRes true []));
+   RVip (Some (VRes true ["db"; "web"])); RDone; RDone; RDone; RDone; RDone;
+   RMetaError ("also bad?", "y"); RDone; RJwtError ["auth0"; "keycloak"]; RCore CNil] /\
+  (mrun ex_es_b ex_mlog mst0).2 = (mrun ex_es_a ex_mlog mst0).2 /\
+  (mrun ex_es_c ex_mlog mst0).2 = (mrun ex_es_a ex_mlog mst0).2.
+Proof. exact machine_example_results. Qed.
+Example C01_machine_example_local_differs :
+  m_expiry (mrun ex_es_a ex_mlog mst0).1 !! "a" = Some 115 /\
+  m_expiry (mrun ex_es_b ex_mlog mst0).1 !! "a" = Some 7792.
+Proof. exact machine_example_local_differs. Qed.
+
+(* ---------- the core store alone ---------- *)
 (* Two replicas whose replicated data agree, whatever their local lock-delay sets (whatever their
    clocks and their own histories of forced lock releases made of them), end any log with the same
    replicated data and return the same result for every command. *)
@@ -93,6 +133,40 @@ Proof. exact prune_old_upstreams_order. Qed.
 Theorem C01_tagged_addresses_order_invariant : forall a1 a2 m,
   Permutation a1 a2 -> NoDup (fst <$> a1) -> merge_tagged a1 m = merge_tagged a2 m.
 Proof. exact merge_tagged_order. Qed.
+(* the same handlers as the machine calls them: the environment picks the order of the map's entries *)
+Theorem C01_usage_step_env_invariant : forall e1 e2 idx deltas u,
+  write_usage_deltas idx (ordered_items e1 deltas) u = write_usage_deltas idx (ordered_items e2 deltas) u.
+Proof. exact usage_step_order. Qed.
+Theorem C01_mesh_topology_env_invariant : forall e1 e2 idx ds news old t,
+  update_mesh_topology e1 idx ds news old t = update_mesh_topology e2 idx ds news old t.
+Proof. exact topology_step_order. Qed.
+Theorem C01_gateway_register_tagged_env_invariant : forall e1 e2 addrs m, ensure_tagged e1 addrs m = ensure_tagged e2 addrs m.
+Proof. exact ensure_tagged_order. Qed.
+(* updateTerminatingGatewayVirtualIPs: two map ranges feeding one fresh map *)
+Theorem C01_tgw_tagged_order_invariant : forall e1 e2 e1' e2' addrs existing,
+  update_tgw_tagged e1 e2 addrs existing = update_tgw_tagged e1' e2' addrs existing.
+Proof. exact update_tgw_tagged_order. Qed.
+
+(* instances with two different orders *)
+Example C01_manual_vips_unique_example : Uniq (vips ex_vstate).
+Proof. exact ex_vstate_Uniq. Qed.
+Example C01_usage_two_orders :
+  write_usage_deltas 7 [("nodes", 1%Z); ("services", (-3)%Z)] (<["services" := (2, 4)]> ∅) =
+  write_usage_deltas 7 [("services", (-3)%Z); ("nodes", 1%Z)] (<["services" := (2, 4)]> ∅).
+Proof. exact usage_two_orders. Qed.
+Example C01_topology_two_orders :
+  t_rows (update_mesh_topology env_id 9 "web" ["api"] {["db"; "api"; "cache"]} ex_topo) =
+  t_rows (update_mesh_topology env_rev 9 "web" ["api"] {["db"; "api"; "cache"]} ex_topo) /\
+  t_rows (update_mesh_topology env_id 9 "web" ["api"] {["db"; "api"; "cache"]} ex_topo) = <[tkey "api" "web" := ("api", "web")]> ∅ /\
+  t_index (update_mesh_topology env_rev 9 "web" ["api"] {["db"; "api"; "cache"]} ex_topo) = 9.
+Proof. exact topology_two_orders. Qed.
+Example C01_tagged_two_orders :
+  let addrs : gmap string (string * N) := <["consul-virtual:db" := ("240.0.0.7", 0)]> (<["consul-virtual:web" := ("240.0.0.6", 0)]> ∅) in
+  let existing : gmap string (string * N) := <["lan" := ("10.0.0.9", 8443)]> (<["consul-virtual:old" := ("240.0.0.1", 0)]> ∅) in
+  update_tgw_tagged env_id env_rev addrs existing = update_tgw_tagged env_rev env_id addrs existing /\
+  update_tgw_tagged env_id env_id addrs existing =
+    <["lan" := ("10.0.0.9", 8443)]> (<["consul-virtual:db" := ("240.0.0.7", 0)]> (<["consul-virtual:web" := ("240.0.0.6", 0)]> ∅)).
+Proof. exact tagged_two_orders. Qed.
 
 (* Error results built from the keys of a map: the keys are sorted before they are visited (fixes
    7ea9e44, 281c379), so the pair named by validateMetadata and the lines reported for missing JWT
@@ -111,7 +185,14 @@ Example C01_error_lines_order_example :
   missing_providers ∅ ["okta"; "auth0"] = ["auth0"; "okta"] /\ missing_providers ∅ ["auth0"; "okta"] = ["auth0"; "okta"].
 Proof. exact missing_providers_example. Qed.
 
+Print Assumptions C01_machine_replicas_agree.
+Print Assumptions C01_machine_invariant_kept.
+Print Assumptions C01_machine_example.
 Print Assumptions C01_replicas_agree.
+Print Assumptions C01_usage_step_env_invariant.
+Print Assumptions C01_mesh_topology_env_invariant.
+Print Assumptions C01_gateway_register_tagged_env_invariant.
+Print Assumptions C01_tgw_tagged_order_invariant.
 Print Assumptions C01_local_never_read.
 Print Assumptions C01_replicas_agree_example.
 Print Assumptions C01_index_from_log_only.
